@@ -257,7 +257,7 @@ def value_key(lit, scopes):
 
 def read(text):
     doc = Parser(text).parse()
-    out, notes = {}, {"ambiguous_bundle_ids": []}
+    out, notes = {}, {"ambiguous_bundle_ids": [], "bundle_ids_outside_document_scope": []}
 
     def recs(container, scopes):
         c = collections.Counter()
@@ -286,6 +286,9 @@ def read(text):
             raise ProvNSyntaxError("bundle identifier %r cannot be resolved" % b["id"])
         if in_b and in_d and in_b != in_d:
             notes["ambiguous_bundle_ids"].append([b["id"], in_b, in_d])
+        if in_d is None:
+            # the identifier stands before the bundle's own declarations: the grammar scopes those to the bundle's content
+            notes["bundle_ids_outside_document_scope"].append([b["id"], in_b])
         key = in_b or in_d
         if key in out:
             raise ProvNSyntaxError("two bundles denote <%s>" % key)
